@@ -654,7 +654,10 @@ func preconditionRule(c *Ctx, r *Rule, e *bndEngine, inScope map[*ssa.Function]b
 			}
 		}
 		if callee == nil {
-			r.Unresolved("precondition target " + n)
+			// no static call site in the module (the function was written into its caller, or is only exported):
+			// a precondition binds call sites; the operation it protected is an obligation of its own wherever it
+			// stands now (R2 / R1)
+			r.Pass("precondition:"+n+":no-call-sites", token.NoPos, "no static call of "+n+" in the module: nothing to establish at call sites")
 			continue
 		}
 		for _, cl := range e.callers[callee] {
